@@ -4,6 +4,7 @@ import Driver.Typed
 import Driver.Upd
 import Driver.Ser
 import Driver.Rfl
+import Driver.Hlp
 open SMD SMD.Wire
 namespace Driver
 
@@ -21,7 +22,7 @@ def step (st : State) (line : String) : State × String :=
       match stepUpd st name rest with
       | some r => r
       | none => (st, "bad-args " ++ name)
-    else (st, runOpWith (allOps ++ opsSer ++ opsRfl ++ opsTyped st ++ opsFlt st) line)
+    else (st, runOpWith (allOps ++ opsSer ++ opsRfl ++ opsHlp ++ opsTyped st ++ opsFlt st) line)
   | none => (st, "bad-op")
 
 end Driver
